@@ -1,4 +1,5 @@
-/- C06 registration module: the outgoing queue under partial writes (theorems c06_* in Properties/C10) and the
-WebSocket send side (Properties/C06Ws). -/
+/- C06 registration module: the outgoing queue under partial writes (theorems c06_* in Properties/C10), the
+WebSocket send side (Properties/C06Ws) and the two layers together (Properties/C06WsWriter). -/
 import PahoProofs.Properties.C10
 import PahoProofs.Properties.C06Ws
+import PahoProofs.Properties.C06WsWriter
